@@ -244,6 +244,34 @@ fn radix_literals(l: Lay, rx: u32, rng: &mut Rng, count: usize) -> Vec<Vec<u8>> 
     out
 }
 
+/// Model-derived carry class of the 128-bit decimal-fraction parser (from_str.rs, impl DecToBin for u128): the value of
+/// the first 54 digits is built as H * 10^27 + L in two 128-bit limbs; literals whose low limb of H * 10^27 lies just
+/// below 2^128 make the addition of L carry into the high limb.  H solves  H * 5^27 = -k (mod 2^101)  for small k.
+fn carry_literals() -> Vec<Vec<u8>> {
+    let m101: u128 = (1u128 << 101) - 1;
+    let five27: u128 = 5u128.pow(27);
+    // inverse of 5^27 modulo 2^128 by Newton's iteration (5^27 is odd)
+    let mut inv: u128 = 1;
+    for _ in 0..8 { inv = inv.wrapping_mul(2u128.wrapping_sub(five27.wrapping_mul(inv))); }
+    let ten27: u128 = 10u128.pow(27);
+    let mut out = vec![];
+    let mut k: u128 = 1;
+    while out.len() < 12 && k < 400_000 {
+        let h = (k.wrapping_neg().wrapping_mul(inv)) & m101;          // H = -k / 5^27 mod 2^101
+        if h < ten27 {
+            let hs = format!("{:027}", h);
+            for tail in ["999999999999999999999999999", "000000000000001", "500000000000000000000000000", "9999999999999999999999999994999"] {
+                let mut s = b"0.".to_vec();
+                s.extend_from_slice(hs.as_bytes());
+                s.extend_from_slice(tail.as_bytes());
+                out.push(s);
+            }
+        }
+        k += 1;
+    }
+    out
+}
+
 fn random_decimals(l: Lay, rng: &mut Rng, count: usize) -> Vec<Vec<u8>> {
     let mut out = vec![];
     let ibits = l.w - l.f;
@@ -281,6 +309,9 @@ fn run_parse<F: Fx>(c: &mut Ctx) {
     if c.on("ties") {
         let lits = tie_literals(l, &mut rng, k);
         for s in lits.iter().step_by(if c.light { 7 } else { 1 }) { ev_parse::<F>(c, 10, s); }
+    }
+    if c.on("dec") && l.w == 128 && l.f > 64 && !c.light {
+        for s in carry_literals() { ev_parse::<F>(c, 10, &s); }
     }
     if c.on("dec") {
         let n = if c.thorough() { 600 } else if c.light { 6 } else { 40 };
